@@ -387,6 +387,74 @@ def decompressPulled (adv : List Nat) (m : CompCert) (decoded : Option Bytes) : 
     | none => 0
     | some out => if out.length ≤ m.ulen then out.length else m.ulen + 1
 
+/-! ## PSK branches of `processServerHello` / `processHelloRetryRequest` (TLS 1.3 client)
+
+uTLS lets the caller install PSK identities with no `SessionState` behind them (`FakePreSharedKeyExtension`
+through `SetPskExtension`): `len(hello.pskIdentities) > 0` no longer implies `hs.session != nil`, which
+crypto/tls takes for granted. Every `hs.session.…` is a nil-dereference site. -/
+
+/-- what the PSK branches look at: the number of identities in the hello that was sent and the session
+(`none` = `hs.session == nil`; `suiteKnown` = `cipherSuiteTLS13ByID(session.cipherSuite) != nil`,
+`hashMatches` = its hash is the negotiated suite's). -/
+structure PskSess where
+  suiteKnown : Bool
+  hashMatches : Bool
+  deriving DecidableEq, Repr
+
+structure PskState where
+  nIds : Nat
+  session : Option PskSess
+  deriving DecidableEq, Repr
+
+inductive PskRes where
+  | noPsk                 -- no pre_shared_key selected / none offered: full handshake
+  | abort (alert : Nat)   -- 47 illegal_parameter, 80 internal_error
+  | resume                -- ServerHello: the PSK is used
+  | rebind                -- HRR: binders recomputed for the second hello
+  | dropPsk               -- HRR: suite incompatible with the PSK, identities removed
+  | panic
+  deriving DecidableEq, Repr
+
+/-- `hs.session.cipherSuite`: a nil session is a panic. -/
+def derefSession : Option PskSess → Out PskSess
+  | some s => .ok s
+  | none => .panic
+
+/-- the tail of `processServerHello`. `checkFirst = true` is the code (`len != 1 || session == nil` is tested
+before the session is used); `false` is the order a seeded change (C33-4) introduced. -/
+def pskServerHelloG (checkFirst : Bool) (st : PskState) (selected : Option Nat) : PskRes :=
+  match selected with
+  | none => .noPsk
+  | some i =>
+    if i ≥ st.nIds then .abort 47
+    else
+      let guard := st.nIds ≠ 1 ∨ st.session.isNone
+      if checkFirst && guard then .abort 80
+      else match derefSession st.session with
+        | .panic => .panic
+        | .err _ => .panic
+        | .ok s =>
+          if guard then .abort 80
+          else if !s.suiteKnown then .abort 80
+          else if !s.hashMatches then .abort 47
+          else .resume
+
+def pskServerHello : PskState → Option Nat → PskRes := pskServerHelloG true
+
+/-- the PSK block of `processHelloRetryRequest`. `guard = true` is the repaired code (D27: `hs.session == nil`
+⇒ internal_error); `false` is crypto/tls's text, which uTLS inherited. -/
+def pskHelloRetryG (guard : Bool) (st : PskState) : PskRes :=
+  if st.nIds = 0 then .noPsk
+  else if guard && st.session.isNone then .abort 80
+  else match derefSession st.session with
+    | .panic => .panic
+    | .err _ => .panic
+    | .ok s =>
+      if !s.suiteKnown then .abort 80
+      else if s.hashMatches then .rebind else .dropPsk
+
+def pskHelloRetry : PskState → PskRes := pskHelloRetryG true
+
 /-! ## record-level retry counter and the post-handshake read loop -/
 
 /-- what one record looks like to `readRecordOrCCS` after decryption (decryption itself is inherited). -/
